@@ -135,6 +135,8 @@ class IdOracle(Oracle):
             before = old["parts"].get(pid, (None, collections.Counter(), collections.Counter()))[1]
             before_all = old["parts"].get(pid, (None, collections.Counter(), collections.Counter()))[2]
             added = ids - before
+            if added and w.scratch.get("turbo_resynced_at") == w.cur_event_index and ev["op"] not in ("add_group", "add_freeform"):
+                self.tainted.discard(pid)       # the cache was re-read from the part just before this addition
             for v, n in added.items():
                 w.stats.hit("c06_new_shape_ids", n)
                 if before_all[v] - before[v] > 0:
@@ -307,7 +309,7 @@ def gen_trace(seed: int, tier: str) -> dict:
         xf.append({"kind": "ids", "mode": rs.choice(["gaps", "high", "dups", "nonnumeric", "names", "mixed", "slideids-max",
                                                      "slideids-gaps", "slideids-max", "foreign", "foreign"]), "seed": rs.randint(0, 999)})
     if rs.random() < 0.3:
-        xf.append({"kind": "rename_slides", "mode": rs.choice(["reverse", "rotate", "gaps", "shuffle", "lastfits", "firstbig"]), "seed": rs.randint(0, 99)})
+        xf.append({"kind": "rename_slides", "mode": rs.choice(["reverse", "rotate", "gaps", "shuffle", "lastfits", "firstbig", "midnext", "midnext2"]), "seed": rs.randint(0, 99)})
     if rs.random() < 0.3:
         for fam in rs.sample(["charts", "themes", "notes", "media", "embeddings"], rs.choice([1, 2])):
             xf.append({"kind": "renumber", "family": fam, "mode": rs.choice(["odd", "shift", "sparse", "reverse"]), "seed": rs.randint(0, 99)})
@@ -324,9 +326,12 @@ def gen_trace(seed: int, tier: str) -> dict:
     if turbo:
         # single held SlideShapes handle per slide for the whole run (turbo's precondition): all shape additions go
         # through actor 0's held handle and never into groups (GroupShapes is a different collection)
+        rt = S("turbo-resync")
         for e in events:
             if e["op"].startswith("add_") and e["op"] != "add_slide":
                 e["held"], e["actor"], e["turbo"] = True, 0, True
+                if rt.random() < 0.2:
+                    e["turbo_resync"] = True
                 e.pop("group", None)
                 if e["op"] == "add_group":
                     e["n"] = 0  # children are added through a second collection (GroupShapes)
